@@ -239,7 +239,7 @@ fn enumerate(c: &mut Case) {
 }
 
 pub fn run(ctx: &Ctx, evidence: Option<&PathBuf>) -> i32 {
-    ctx.run_fixed("directed", 60, enumerate);
+    ctx.run_fixed("directed", ctx.dn(60), enumerate);
     let n = ctx.size(400, 40_000);
     ctx.run_cases("abort-positions", n, enumerate);
     ctx.gate("active_id_abort_positions", 500);
